@@ -164,7 +164,7 @@ def _gen_sources(rng, tier):
             if any((st[0] == "turns" and st[1] > 0) or (st[0] == "feed_split" and len(st) > 3) for st in case.get("client", [])):
                 continue  # "k scheduler turns later" is not the same instant on two different schedulers: not "the same timing"
             t = case.get("truth") or {}
-            if name == "c06" and any(m not in ("after", "slow") for m in t.get("modes", [])):
+            if name == "c06" and (any(m not in ("after", "slow") for m in t.get("modes", [])) or t.get("kind") in ("unread-upload", "early-answer")):
                 continue  # responding before the body has been read races the reader (C06 ND)
             if name == "c10" and t.get("deflate") and t.get("inner_ping"):
                 continue  # known third-party mechanism (wsproto), outcome after the failure is not specified
@@ -221,6 +221,8 @@ def normalise(case, obs):
             if s.status == 200:
                 p.feed(bytes(s.data))
                 body = (tuple((k, _h(v.encode() if isinstance(v, str) else v)) for k, v in p.messages), p.close, tuple(p.pongs), tuple(p.errors))
+            elif s.rst is not None and not s.ended:
+                body = "<aborted>"  # (as for plain HTTP/2 below: how much of a response the server itself aborts had already left is scheduling)
             else:
                 body = _h(s.data)
             streams.append((sid, s.status, tuple(x for x in (s.final_headers() or []) if x[0] != b"date"), body, s.ended, s.rst))
